@@ -13,6 +13,14 @@ def plan(tier, seed):
                     env=dict(VERIF_ONE_DICT=1), shape=dict(one_dict=1)), name="C16-h_update_rules[one-dict]"),
             ch("C16", F, "h_write_read_verbatim", 60, ["api.ParquetFile.key_value_metadata", "util.ensure_str"])]
     jobs.append(ch("C16", F, "h_kv_property", t, ["api.ParquetFile.key_value_metadata", "util.ensure_str"]))
+    # the bytes of the keys and values themselves: the lifted serialiser on KeyValue / FileMetaData (str values travel
+    # through a char*: every byte counts, also NUL)
+    from . import thrift_struct
+    for st in ("KeyValue", "FileMetaData"):
+        j = ch("C16", thrift_struct.F, "h_roundtrip", 200 if tier == "quick" else 900, thrift_struct.FUN,
+               shape=dict(struct=st), env=dict(VERIF_STRUCT=st))
+        j["name"] += "[%s]" % st
+        jobs.append(j)
     extra = dict(
         explanation="CrossHair (z3) over the real update_file_custom_metadata on a symbolic file (data length, old and "
                     "new footer length are unbounded symbolic integers, so the footer delta ranges over all integers): "
